@@ -30,6 +30,10 @@ def run(ctx) -> None:
     r.rule("C08.R4", "state a failed conversion could leave behind is restored/reset (class templates: finally-restore; pipeline per-rule fields: reset at the top of apply)")
     c15.r3_reset_complete(ctx, "C08.R4")
     c15.r4_class_attr_writes(ctx, "C08.R4")
+    # nothing one rule's conversion writes may be a process-wide object: every writer of a module-/class-level mutable
+    # binding is in the reviewed table (shared with C15.R1)
+    c15.r1_inventory(ctx, "C08.R6")
+    c15.r12_rule_objects_fresh(ctx, "C08.R7")
 
 
 def _slot_functions(ctx) -> list[str]:
